@@ -62,27 +62,24 @@ def row_flags(row):
     return fl
 
 
-def api_contract(Tt, rec):
-    """exact check of the declared API against the options (on the real emitted header/source of this run)"""
-    c = Tt.c
-    h = Tt.hinfo
-    fm = c.flagmap
-    name = c.name
+def header_api(h, header_text, fm, name, hooks, finish_codes, yield_codes):
+    """the API-declaration contract on a parsed header `h` (cparse.parse_header) for the flag assignment `fm` (dict flag name -> bool):
+    list of ("proved", oid) / ("refuted", oid, what)"""
     U = name.upper()
     out = []
 
     def ok(oid):
-        out.append(("proved", "api/" + oid, "structural", 0.0))
+        out.append(("proved", oid))
 
     def bad(oid, what):
-        out.append(("refuted", "api/" + oid, what, {"header_excerpt": c.header[:1500]}, True))
+        out.append(("refuted", oid, what))
     protos = {p["name"]: p for p in h["protos"]}
     want = {f"{name}_start", f"{name}_feed"}
     if fm["EOF_SUPPORT"]:
         want.add(f"{name}_end")
     if fm["DYNAMIC_MEMORY"]:
         want.add(f"{name}_free")
-    hooks = list(c.cctx.hooks)
+    hooks = list(hooks)
     if fm["HOOK_GLOBAL"]:
         want |= {f"{name}_{hk}_hook" for hk in hooks}
     if set(protos) != want:
@@ -110,7 +107,7 @@ def api_contract(Tt, rec):
         ok("userptr")
     # result enumerators
     res = h["enums"].get(f"{name}_result")
-    want_e = [f"{U}_OK", f"{U}_FAIL", f"{U}_DONE"] + [f"{U}_FINISH_{x}" for x in c.cctx.finish_codes] + [f"{U}_YIELD_{x}" for x in c.cctx.yield_codes]
+    want_e = [f"{U}_OK", f"{U}_FAIL", f"{U}_DONE"] + [f"{U}_FINISH_{x}" for x in finish_codes] + [f"{U}_YIELD_{x}" for x in yield_codes]
     if res is None or sorted(res["values"]) != sorted(want_e) or len(set(res["values"])) != len(res["values"]):
         bad("result-enumerators", f"result enum has {res and res['values']} but exactly {want_e} are required")
     else:
@@ -141,6 +138,27 @@ def api_contract(Tt, rec):
         bad("cplusplus-guard", "extern \"C\" guard missing, duplicated or unbalanced")
     else:
         ok("cplusplus-guard")
+    return out
+
+
+def api_contract(Tt, rec):
+    """exact check of the declared API against the options (on the real emitted header/source of this run)"""
+    c = Tt.c
+    h = Tt.hinfo
+    fm = c.flagmap
+    name = c.name
+    out = []
+
+    def ok(oid):
+        out.append(("proved", "api/" + oid, "structural", 0.0))
+
+    def bad(oid, what):
+        out.append(("refuted", "api/" + oid, what, {"header_excerpt": c.header[:1500]}, True))
+    for item in header_api(h, c.header, fm, name, c.cctx.hooks, c.cctx.finish_codes, c.cctx.yield_codes):
+        if item[0] == "proved":
+            ok(item[1])
+        else:
+            bad(item[1], item[2])
     # source defines exactly the declared functions (hooks excepted: they are the user's)
     defined = set(Tt.tu["order"])
     want_def = {f"{name}_start", f"{name}_feed"} | ({f"{name}_end"} if fm["EOF_SUPPORT"] else set()) | ({f"{name}_free"} if fm["DYNAMIC_MEMORY"] else set())
@@ -179,11 +197,20 @@ def main():
         if "yield" in prog["src"]:
             fl.append("-fyield-support")
         return fl
-    text = ("API-declaration contract (start/feed always, end iff EOF support, free iff dynamic memory, hooks as prototypes xor members, exactly the result enumerators, guards) evaluated exactly on the emitted header/source; "
+    text = ("Proved for ALL flag assignments consistent with the flag metadata (pyvc: generate_header / generate_source executed from the real AST with every flag symbolic, one path per combination of the flags read, "
+            "emitted text concrete per path) on a representative program interface: the declaration contract below. Per program x option row in addition: "
+            "API-declaration contract (start/feed always, end iff EOF support, free iff dynamic memory, hooks as prototypes xor members, exactly the result enumerators, guards) evaluated exactly on the emitted header/source; "
             "csem well-formedness (every goto has its label at the head of the right case of the same function, every member/enumerator used is declared); gcc/g++ -fsyntax-only -Wall -Werror as decision procedure for validity. "
             f"Bounded: {len(ps)} programs x {len(rows)} option rows ({'3' if thorough else '2'}-wise covering array over {len(PARAMS)} option parameters, {missing} tuples uncovered).")
+    # proved part (all flag assignments, representative interface) in a child process, overlapping with the per-program runs
+    import multiprocessing
+    from . import c11_proofs
+    pool = multiprocessing.get_context("fork").Pool(1)
+    proved = pool.apply_async(c11_proofs.worker, (None,))
     rep, recs = T.run("C11", {"wellformed"}, "other", text, optsets=optsets, programs=ps, extra=extra, post=api_contract,
                       fns=["CodegenCtx.generate_header", "CodegenCtx.generate_source", "CodegenCtx._generate_state_object_decl", "CodegenCtx._generate_feed_implementation", "CodegenCtx._generate_end_implementation"])
+    c11_proofs.merge(rep, proved.get(timeout=1500))
+    pool.terminate()
     nb = 0
     for r in recs:
         for item in r.get("extra") or []:
